@@ -8,6 +8,7 @@ mod util;
 mod c18;
 mod psetl;
 mod c14;
+mod c08;
 
 pub struct Out {
     pub result: String,
@@ -28,6 +29,7 @@ fn eval(case: &str) -> Out {
     let r = std::panic::catch_unwind(|| match kind {
         "C18" => c18::eval(case),
         "C14" => c14::eval(case),
+        "C08" => c08::eval(case),
         _ => Out::ok(format!("harnesserr unknown kind {}", kind)),
     });
     match r {
@@ -40,6 +42,7 @@ fn gen(prop: &str, rng: &mut ChaCha20Rng, n: usize, thorough: bool) -> Vec<Case>
     match prop {
         "C18" => c18::gen(rng, n, thorough),
         "C14" => c14::gen(rng, n, thorough),
+        "C08" => c08::gen(rng, n, thorough),
         _ => panic!("unknown property {}", prop),
     }
 }
